@@ -1,3 +1,13 @@
+"""C06 - unit conversions agree with the SI definitions and invert exactly."""
 LEVEL = 'proof'
-EXPLANATION = 'C06 unit conversions'
+EXPLANATION = ('to_raw / from_raw of all seven dimensions x every unit under contract against an independent SI table written '
+               'from the definitions (exact inch, pound, grain, nautical mile, standard gravity, conventional mmHg, affine '
+               'temperature scales, tangent maps for in/100yd and cm/100m; contracts/specfn.py SI): |factor - SI| <= 1e-6 '
+               'relative, one instance per unit. Round trips and transitivity as harness functions over the real methods for '
+               'every pair / triple of units of a dimension: unit->base->unit and base->unit->base are the identity, A->B->C = '
+               'A->C (exact over the reals; the code multiplies and divides by the same literal). AbstractDimension.unit_value, '
+               '>> and Unit.__call__: the reading follows the display unit and never changes the magnitude. tan/atan are '
+               'uninterpreted with the inverse axiom atan(tan x) = x on (-pi/2, pi/2) (A-LIBM).')
+NOT_DECIDED = ['"to within a few ulps" in binary64: the identities are proved over the reals (A-REAL); the floating-point error '
+               'of one multiplication and one division is not machine-checked']
 EXTRA = []
